@@ -11,7 +11,7 @@
   (`failed_update_not_atomic`).
 -/
 import DfModel.Sm.MemTable
-import DfModel.Proofs.C39c
+import DfModel.Proofs.C39d
 namespace DfModel.Props.C39
 open DfModel DfModel.Sm.MemTable DfModel.Proofs.C39
 
@@ -200,23 +200,21 @@ theorem batchwise_eq_rowwise (w : Nat) (l₁ l₂ : Layout) (s : Stmt) (hrows : 
 
 /-! ### INSERT -/
 
-/-- full statement for INSERT: with at least one partition, the table afterwards holds the old rows
-    plus the rows of the arriving batches (as a bag), and the count is the number of arriving rows -/
-def insert_spec_statement : Prop :=
-  ∀ (w : Nat) (l : Layout) (bs : List Batch), l ≠ [] →
+/-- **INSERT** (`MemSink::write_all`): with at least one partition (`MemTable::try_new` requires it) the
+    table afterwards holds the old rows plus the rows of the arriving batches, as a bag — the
+    round-robin distribution loses and duplicates nothing, for any number of partitions and any
+    batching of the input — and the reported count is the number of arriving rows. -/
+theorem insert_spec (w : Nat) (l : Layout) (bs : List Batch) (hl : l ≠ []) :
     (step w l (.insert bs)).2 = some (bs.map List.length).sum ∧
-    (rows (step w l (.insert bs)).1).Perm (rows l ++ bs.flatten)
+    (rows (step w l (.insert bs)).1).Perm (rows l ++ bs.flatten) :=
+  ⟨rfl, insertBatches_perm l bs hl⟩
 
-/-- proved part: the count, the number of partitions, and that every partition keeps its batches as
-    a prefix (existing data is never touched).  Missing: the permutation fact that the round-robin
-    tails `rrTail n 0 … rrTail n (n-1)` together contain every arriving batch exactly once (checked on
-    every run by the correspondence: the model re-distributes the observed batches and must
-    reproduce the observed layout). -/
-theorem insert_spec_partial (w : Nat) (l : Layout) (bs : List Batch) :
-    (step w l (.insert bs)).2 = some (bs.map List.length).sum ∧
+/-- existing data is never touched: the number of partitions is kept and every partition keeps its
+    batches as a prefix -/
+theorem insert_keeps_existing (w : Nat) (l : Layout) (bs : List Batch) :
     (step w l (.insert bs)).1.length = l.length ∧
     ∀ i (h : i < l.length), ∃ tail, (step w l (.insert bs)).1[i]? = some (l[i] ++ tail) := by
-  refine ⟨rfl, by simp [step, insertBatches], ?_⟩
+  refine ⟨by simp [step, insertBatches], ?_⟩
   intro i h
   refine ⟨rrTail l.length i bs, ?_⟩
   simp [step, insertBatches, h]
